@@ -24,6 +24,10 @@ CHECKS = {
    text="(A) Boundary search on the hop limit: a scripted peer injects messages that crossed k connections (k routing words / hop byte k-1) into each of the 8 TTL-enforcing receivers, each probe followed by an in-limit sentinel so that 'dropped' is decided without a timeout; delivered <=> k<=TTL (PAIR1 k<=TTL+1) is compared between cooked and raw. Quick: generated (TTL,k) with boundary bias; thorough adds the full enumeration TTL 1..255 x k in TTL-1..TTL+2 (exhaustive on that axis). (B) Real Device chains of 0..4 forwarders (req/rep, survey, pair1, pipeline; inproc, tcp) with 1-3 concurrent clients: payloads unchanged, replies return to the asking client, answered <=> crossed connections <= server TTL.",
    note="k=0 has no encoding (a received message crossed at least one connection). In (B) 'not answered' is decided by a 250 ms window (absence is genuine, so no false alarm; a wrongly delivered message arrives in microseconds). STAR/BUS chains are covered by C08.",
    technique="property-based testing (rapid) with sentinel-decided boundary probes over a virtual transport, plus exhaustive enumeration of the TTL axis in the thorough tier and generated device-chain topologies"),
+ "C07": dict(
+   text="Model-based state-machine search over a SURVEYOR socket (1-3 contexts, 1-3 scripted respondents): every survey must reach every connected pipe exactly once with one id; Recv results are compared with a model holding, per context, the current survey id and the arrival-ordered queue of valid responses (stale, foreign, bit-less, short and random responses must vanish); Recv without a survey must fail promptly with ErrProtoState. Real-time expiry scenarios (150-300 ms): early response delivered, Recv across/after expiry fails with ErrProtoState not before the survey time, late responses discarded, zero survey time never expires.",
+   note="Expiry scenarios are real time: 'after expiry' = survey time + 300 ms; the lower bound (not before the survey time) is exact. RESPONDENT-side routing is decided by C05.",
+   technique="stateful property-based testing (rapid) against a reference model over a virtual transport, plus timed expiry scenarios"),
 }
 
 ALL = ["C%02d" % i for i in range(1, 21)]
